@@ -41,7 +41,7 @@
 (***************************************************************************)
 EXTENDS Integers, Sequences, FiniteSets, TLC, Json
 
-CONSTANTS RefU,          \* universe of references: sequence of [st, name, kind]
+CONSTANTS RefU,          \* universe of references: sequence of [st, name, kind, file]
           MaxRefs,       \* number of declared references <= MaxRefs
           Styles,        \* styles of the command line that are explored
           FullUsage,     \* TRUE: every usage of a reference; FALSE: one occurrence in the preferred spelling
@@ -57,12 +57,17 @@ ValTok == <<"V1", "V2", "V3", "V4", "V5", "V6", "V7", "V8", "V9", "V10", "V11", 
 ASSUME Len(RefU) <= Len(ValTok)
 U == 1..Len(RefU)
 
-(* kinds: "ref"  = name:ref           -> working directory of the producer                              *)
-(*        "reff" = name/out.txt:ref   -> path of the file                                                *)
-(*        "out"  = name/out.txt:output-> contents of the file                                            *)
-(*        "copy" = name:copy          -> staged into the working directory, never part of the arguments  *)
-Method(i) == CASE RefU[i].kind \in {"ref", "reff"} -> "ref" [] RefU[i].kind = "out" -> "output" [] OTHER -> "copy"
-FileOf(i) == IF RefU[i].kind \in {"reff", "out"} THEN <<"out", ".", "txt">> ELSE <<>>
+(* kinds: "ref"  = name[/file]:ref    -> working directory of the producer / path of the file below it    *)
+(*        "out"  = name/file:output   -> the CONTENTS of the file: verbatim, decoded as utf-8 (undecodable  *)
+(*                                       bytes become U+FFFD), minus the trailing newline characters -- as  *)
+(*                                       the implementation documents; nothing else (CR, tabs, blanks,      *)
+(*                                       inner newlines) is touched                                         *)
+(*        "copy" = name[/file]:copy   -> staged into the working directory, never part of the arguments     *)
+(* The file part is spelled as the author wrote it (trailing "/", "./", "//", "..", globs): the occurrence  *)
+(* that is written exactly like the declared reference is an occurrence of it.  The value is opaque here     *)
+(* (ValTok); which file it is and what the file contains is the driver's side of the binding.                *)
+Method(i) == CASE RefU[i].kind = "ref" -> "ref" [] RefU[i].kind = "out" -> "output" [] OTHER -> "copy"
+FileOf(i) == RefU[i].file
 Rel(i) == RefU[i].name \o (IF FileOf(i) = <<>> THEN <<>> ELSE <<"/">> \o FileOf(i)) \o <<":", Method(i)>>
 Abs(i) == <<StageWord(RefU[i].st), ".">> \o Rel(i)
 Str(i, sp) == IF sp = "abs" THEN Abs(i) ELSE Rel(i)
@@ -237,14 +242,16 @@ CaseJson == [t |-> "case", decl |-> [k \in 1..Len(decl) |-> RefJson(k)], style |
              args |-> args, expected |-> out, sequential |-> Sequential(args, decl), verdict |-> Verdict]
 EmitCase == (Emit /\ phase = "resolved" /\ CleanFault) => PrintT(ToJson(CaseJson))
 ASSUME Emit => PrintT(ToJson([t |-> "universe", refs |-> [i \in U |-> [i |-> i, st |-> RefU[i].st, name |-> RefU[i].name,
-                                                                      kind |-> RefU[i].kind, val |-> ValTok[i],
+                                                                      kind |-> RefU[i].kind, file |-> RefU[i].file, val |-> ValTok[i],
                                                                       quotes |-> IF i \in DOMAIN Quoting THEN Rel(Quoting[i]) ELSE <<>>]]]))
 
 (* ---------------------------------------------------------------------- *)
 (* universes selected by the generated cfg files.  Names: A, BA (A is a suffix), B-A, x.A (dash / dot before *)
 (* the suffix), AB and A0 (A is a prefix: harmless for a correct AND for the sequential algorithm), the same  *)
 (* names in both stages.                                                                                      *)
-Mk(st, name, kind) == [st |-> st, name |-> name, kind |-> kind]
+MkF(st, name, kind, file) == [st |-> st, name |-> name, kind |-> kind, file |-> file]
+Mk(st, name, kind) == MkF(st, name, IF kind = "reff" THEN "ref" ELSE kind,
+                          IF kind \in {"reff", "out"} THEN <<"out", ".", "txt">> ELSE <<>>)
 nA == <<"A">>
 nBA == <<"B", "A">>
 nBdA == <<"B", "-", "A">>
@@ -260,6 +267,24 @@ RefUThree == << Mk(1, nA, "ref"), Mk(0, nA, "ref"), Mk(1, nBA, "ref"), Mk(0, nBA
 RefUQuote == << Mk(1, nA, "out"), Mk(1, nBA, "ref"), Mk(0, nA, "out"), Mk(1, nA, "ref"), Mk(0, nBA, "ref") >>
 QuotingTwo == (1 :> 2) @@ (3 :> 4)
 NoQuoting == <<>>
+(* contents classes of :output files (one file per class in every producer's directory, see the driver) *)
+Txt(w) == <<w, ".", "txt">>
+RefUContents == << MkF(0, nA, "out", Txt("nl")), MkF(0, nA, "out", Txt("nl2")), MkF(0, nA, "out", Txt("crlf")),
+                   MkF(1, nA, "out", Txt("cr")), MkF(0, nA, "out", Txt("tab")), MkF(1, nA, "out", Txt("utf8")),
+                   MkF(0, nA, "out", Txt("bin")), MkF(1, nA, "out", Txt("empty")), MkF(0, nA, "out", Txt("inner")),
+                   MkF(1, nA, "out", Txt("blank")), Mk(1, nA, "out"), Mk(1, nBA, "ref") >>
+(* spellings of the file part *)
+fDir == <<"outputs", "/">>
+fDot == <<".", "/", "out", ".", "txt">>
+fDbl == <<"sub", "/", "/", "x", ".", "txt">>
+fUp == <<"sub", "/", "..", "/", "out", ".", "txt">>
+fGlob == <<"out", ".", "*">>
+RefUPaths == << MkF(1, nA, "ref", fDir), MkF(0, nA, "ref", fDir), MkF(1, nA, "ref", fDot), MkF(1, nBA, "ref", fDbl),
+                MkF(0, nA, "ref", fUp), MkF(1, nA, "ref", fGlob),
+                MkF(1, nA, "out", fDot), MkF(0, nBA, "out", fDot), MkF(1, nA, "out", fUp), MkF(0, nA, "out", fDbl),
+                MkF(1, nBA, "out", fGlob),
+                MkF(1, nA, "copy", fDir), MkF(0, nA, "copy", <<"*", ".", "txt">>),
+                Mk(1, nA, "ref"), Mk(1, nA, "reff"), Mk(1, nA, "out") >>
 RefUSix == << Mk(1, nA, "ref"), Mk(0, nA, "ref"), Mk(1, nBA, "ref"), Mk(0, nBA, "ref"), Mk(1, nA, "out"), Mk(0, nA, "out") >>
 RefUWide == << Mk(1, nA, "ref"), Mk(0, nA, "ref"), Mk(1, nBA, "ref"), Mk(0, nBA, "ref"),
                Mk(1, nBdA, "ref"), Mk(0, nxA, "ref"), Mk(1, nxA, "ref"), Mk(1, nAB, "ref"), Mk(0, nA0, "ref"),
